@@ -18,7 +18,7 @@ func init() { register("C18", &Prop{Gen: c18Gen, Run: c18Run}) }
 
 type regSpec struct {
 	addr, val int
-	v    string
+	v         string
 }
 
 func parseRegs(s string) []regSpec {
